@@ -13,7 +13,7 @@ Open Scope list_scope.
 Open Scope Z_scope.
 
 (** * Records *)
-Inductive aval := VS (s : string) | VI (z : Z).
+Inductive aval := VS (s : string) | VI (z : Z) | VM (m : list (string * Z)).   (* VM: a summary slot such as merged_taxid *)
 Record arec := mkr { rid : string; rattrs : list (string * aval); rseq : string }.
 
 Fixpoint lookup (k : string) (l : list (string * aval)) : option aval :=
@@ -51,10 +51,10 @@ Definition show_Z (z : Z) : string :=
   | Zpos p => show_N (Npos p)
   | Zneg p => append "-" (show_N (Npos p))
   end.
-Definition show_val (v : aval) : string := match v with VS s => s | VI z => show_Z z end.
+Definition show_val (v : aval) : string := match v with VS s => s | VI z => show_Z z | VM _ => "" end.   (* map rendering is not modelled *)
 
 Definition rlen (r : arec) : Z := Z.of_nat (String.length (rseq r)).
-(** BioSequence.Count(): the int attribute "count", 1 when absent *)
+(** BioSequence.Count(): the int attribute "count", 1 when absent or not an integer (a string-typed count reads as 1) *)
 Definition rcount (r : arec) : Z := match lookup "count" (rattrs r) with Some (VI z) => z | _ => 1 end.
 (** BioSequence.Definition(): attribute "definition" as a string, "" when absent *)
 Definition rdef (r : arec) : string := match lookup "definition" (rattrs r) with Some v => show_val v | None => "" end.
@@ -73,8 +73,9 @@ Definition p_or (a b : option pred) : option pred :=
   | _, None => a
   | Some f, Some g => Some (fun r => if f r then true else g r)
   end.
+(** Not (after fix eafa00e): the nil predicate stands for "always true", its negation rejects every record *)
 Definition p_not (a : option pred) : option pred :=
-  match a with None => None | Some f => Some (fun r => negb (f r)) end.
+  match a with None => Some (fun _ => false) | Some f => Some (fun r => negb (f r)) end.
 Definition holds (p : option pred) (r : arec) : bool := match p with None => true | Some f => f r end.
 
 (** `if len(l) > 0 { p := mk(l[0]); for x in l[1:] { p = p.And(mk(x)) }; return p }; return nil` *)
@@ -96,10 +97,8 @@ Definition pmode_eqb (a b : pmode) : bool :=
   | _, _ => false
   end.
 (** PairedPredicat: a record with its mate (None = not paired) *)
-Definition paired_pred (mode : pmode) (p : option pred) : option (arec -> option arec -> bool) :=
-  match p with
-  | None => None
-  | Some f => Some (fun r m =>
+Definition paired_some (mode : pmode) (f : pred) : arec -> option arec -> bool :=
+  fun r m =>
       let good := f r in
       match m with
       | Some mate =>
@@ -115,7 +114,15 @@ Definition paired_pred (mode : pmode) (p : option pred) : option (arec -> option
           end
         else good
       | None => good
-      end)
+      end.
+(** (after fix eafa00e) nil stays nil except for the modes that negate the mate, where it is the always-true predicate *)
+Definition paired_pred (mode : pmode) (p : option pred) : option (arec -> option arec -> bool) :=
+  match p with
+  | None => match mode with
+            | MAndNot | MXor => Some (paired_some mode (fun _ => true))
+            | _ => None
+            end
+  | Some f => Some (paired_some mode f)
   end.
 Definition holds2 (p : option (arec -> option arec -> bool)) (r : arec) (m : option arec) : bool :=
   match p with None => true | Some f => f r m end.
@@ -127,7 +134,8 @@ Section Grep.
   Variables RE EXPR APAT TAXQ : Type.
   Variable re_match : bool -> RE -> string -> bool.     (* Go regexp; true = "(?i)" prefixed *)
   Variable eval_bool : EXPR -> arec -> bool.             (* gval EvalBool on {annotations, sequence} *)
-  Variable approx_match : APAT -> arec -> bool.          (* obiapat.IsPatternMatchSequence *)
+  Variable approx_match : APAT -> Z -> bool -> string -> bool.   (* ApatPattern.IsMatching of MakeApatPattern(pattern, errormax, allowsIndel) on a sequence *)
+  Variable apat_rc : APAT -> APAT.                       (* ApatPattern.ReverseComplement *)
   Variable tax_pred : TAXQ -> arec -> bool.              (* IsSubCladeOf / IsSubCladeOfSlot / HasRequiredRank *)
 
   Record gopts := MkG {
@@ -136,7 +144,13 @@ Section Grep.
     preds : list EXPR; reqattrs : list string; attrpats : list (string * RE);
     idlist : option (list string);            (* None: --id-list not given *)
     invert : bool; pairmode : pmode;
-    approx : list APAT; ranks : list TAXQ; belong : list TAXQ; avoid : list TAXQ }.
+    approx : list APAT; gperr : Z; gpindel : bool; gpfwd : bool;   (* --approx-pattern, --pattern-error, --allows-indels, --only-forward *)
+    ranks : list TAXQ; belong : list TAXQ; avoid : list TAXQ }.
+
+  (** obiapat.IsPatternMatchSequence(pattern, CLIPatternError(), CLIPatternBothStrand() = !only_forward, CLIPatternInDels()) *)
+  Definition approx_pred (o : gopts) (p : APAT) : pred :=
+    fun r => if approx_match p (gperr o) (gpindel o) (rseq r) then true
+             else if negb (gpfwd o) then approx_match (apat_rc p) (gperr o) (gpindel o) (rseq r) else false.
 
   (** CLISequenceSizePredicate *)
   Definition size_pred (o : gopts) : option pred :=
@@ -185,7 +199,7 @@ Section Grep.
     let p := p_and p (idlist_pred o) in
     let p := p_and p (chain_and (fun k r => has_key k (rattrs r)) (reqattrs o)) in
     let p := p_and p (attrs_pred o) in
-    p_and p (chain_and approx_match (approx o)).
+    p_and p (chain_and (approx_pred o) (approx o)).
   Definition impl_pred (o : gopts) : option pred :=
     if invert o then p_not (impl_base o) else impl_base o.
   (** CLIFilterSequence with a paired file: predicate.PairedPredicat(CLIPairedReadMode()) *)
@@ -206,7 +220,8 @@ Section Grep.
     (match idlist o with None => true | Some ids => mem_str (rid r) ids end) &&
     forallb (fun k => has_key k (rattrs r)) (reqattrs o) &&
     forallb (fun kp => attr_match kp r) (attrpats o) &&
-    forallb (fun a => approx_match a r) (approx o).
+    forallb (fun a => approx_match a (gperr o) (gpindel o) (rseq r) ||
+                      (negb (gpfwd o) && approx_match (apat_rc a) (gperr o) (gpindel o) (rseq r))) (approx o).
   Definition spec_sel (o : gopts) (r : arec) : bool :=
     if invert o then negb (spec_pred o r) else spec_pred o r.
   (** the six paired modes as Boolean functions of (forward, reverse) *)
@@ -250,19 +265,37 @@ Definition chain (w next : option worker) : option worker :=
   end.
 Definition set_attrs (r : arec) (a : list (string * aval)) : arec := mkr (rid r) a (rseq r).
 Definition set_id (r : arec) (i : string) : arec := mkr i (rattrs r) (rseq r).
+Definition set_seq (r : arec) (s : string) : arec := mkr (rid r) (rattrs r) s.
+Definition lower (c : ascii) : ascii :=
+  let n := N_of_ascii c in if (N.leb 65 n && N.leb n 90)%bool then ascii_of_N (n + 32) else c.
+Fixpoint lower_str (s : string) : string :=
+  match s with EmptyString => EmptyString | String c t => String (lower c) (lower_str t) end.
+
+(** BioSequence.GetAttribute / SetAttribute (after fix: values given for id / sequence are converted, not type-asserted):
+    "id" and "sequence" are the fields of the record; "qualities": the model has no quality strings (FASTA records) *)
+Definition get_attr (r : arec) (k : string) : option aval :=
+  if String.eqb k "id" then Some (VS (rid r))
+  else if String.eqb k "sequence" then (if String.eqb (rseq r) "" then None else Some (VS (rseq r)))
+  else if String.eqb k "qualities" then None
+  else lookup k (rattrs r).
+Definition set_attr (r : arec) (k : string) (v : aval) : arec :=
+  if String.eqb k "id" then set_id r (show_val v)
+  else if String.eqb k "sequence" then set_seq r (lower_str (show_val v))      (* SetSequence lowers the symbols *)
+  else if String.eqb k "qualities" then r                                     (* not modelled: never generated *)
+  else set_attrs r (set_key k v (rattrs r)).
 
 Definition e_clear (r : arec) : arec := set_attrs r [].
 Definition e_delete (ks : list string) (r : arec) : arec :=
   set_attrs r (fold_left (fun a k => remove_key k a) ks (rattrs r)).
 Definition e_keep (ks : list string) (r : arec) : arec :=
   set_attrs r (filter (fun kv => mem_str (fst kv) ks) (rattrs r)).
-(** RenameAttribute(new, old): if old is present { set new; delete old } *)
-Definition rename1 (a : list (string * aval)) (no : string * string) : list (string * aval) :=
-  match lookup (snd no) a with
-  | Some v => remove_key (snd no) (set_key (fst no) v a)
-  | None => a
+(** RenameAttribute(new, old): if GetAttribute(old) succeeds { SetAttribute(new, value); DeleteAttribute(old) } *)
+Definition rename1 (r : arec) (no : string * string) : arec :=
+  match get_attr r (snd no) with
+  | Some v => let r' := set_attr r (fst no) v in set_attrs r' (remove_key (snd no) (rattrs r'))
+  | None => r
   end.
-Definition e_rename (l : list (string * string)) (r : arec) : arec := set_attrs r (fold_left rename1 l (rattrs r)).
+Definition e_rename (l : list (string * string)) (r : arec) : arec := fold_left rename1 l r.
 Definition e_length (r : arec) : arec := set_attrs r (set_key "seq_length" (VI (rlen r)) (rattrs r)).
 
 (** CutSequenceWorker (after fix 7ce2231), from/to as given on the command line; None = Subsequence error *)
@@ -281,21 +314,43 @@ Definition e_cut (from to : Z) (r : arec) : option arec :=
   else Some (mkr (append (rid r) (append "_sub[" (append (show_Z (f + 1)) (append ".." (append (show_Z t) "]"))))) (rattrs r)
                  (String.substring (Z.to_nat f) (Z.to_nat (t - f)) (rseq r))).
 
+(** reverse complement of a nucleotide string (BioSequence.ReverseComplement on acgt) *)
+Definition comp_nuc (c : ascii) : ascii :=
+  if Ascii.eqb c "a" then "t" else if Ascii.eqb c "c" then "g" else if Ascii.eqb c "g" then "c" else if Ascii.eqb c "t" then "a" else c.
+Fixpoint revcomp_acc (s acc : string) : string :=
+  match s with EmptyString => acc | String c t => revcomp_acc t (String (comp_nuc c) acc) end.
+Definition revcomp (s : string) : string := revcomp_acc s "".
+
 Section Annot.
   Variable VEXPR : Type.
   Variable eval_val : VEXPR -> arec -> option aval.     (* gval evaluation; None = evaluation error *)
+  (** taxonomy edits (pkg/obitax, property C14) and the Aho-Corasick counter are external *)
+  Variable at_rank : string -> arec -> arec.            (* Taxonomy.SetTaxonAtRank *)
+  Variables set_path set_trank set_sciname : arec -> arec.   (* SetPath / SetTaxonomicRank / SetScientificName *)
+  Variable set_lca : string -> arec -> arec.            (* AddLCAWorker(taxo, slot, 1 - lca-error) *)
+  Variable AHO : Type.
+  Variable aho_edit : AHO -> arec -> arec.              (* AhoCorazickWorker("aho_corasick", patterns) *)
+  (** the approximate matcher of --pattern *)
+  Variable APAT : Type.
+  Variable apat_src : APAT -> string.                   (* the pattern as given *)
+  Variable apat_rc : APAT -> APAT.
+  Variable best_match : APAT -> Z -> bool -> string -> option (Z * Z * Z).
+     (* ApatPattern.BestMatch of MakeApatPattern(p, errormax, indel): (start, end, errors), already restricted to start >= 0, end <= length *)
 
   Record aopts := MkA {
     aclear : bool; asetid : option VEXPR; adelete : list string; akeep : list string;
     arename : list (string * string); alength : bool; asettag : list (string * VEXPR);
-    acut : option (Z * Z) }.
+    acut : option (Z * Z);
+    ataxrank : list string; apath : bool; atrank : bool; asciname : bool; alca : string;
+    aaho : option AHO;
+    apattern : option APAT; ptname : string; pterr : Z; ptfwd : bool; ptindel : bool }.
 
   Definition pure (f : arec -> arec) : worker := fun r => Some [f r].
   (** EditIdWorker / EditAttributeWorker *)
   Definition e_setid (e : VEXPR) (r : arec) : option arec :=
     match eval_val e r with Some v => Some (set_id r (show_val v)) | None => None end.
   Definition e_settag (ke : string * VEXPR) (r : arec) : option arec :=
-    match eval_val (snd ke) r with Some v => Some (set_attrs r (set_key (fst ke) v (rattrs r))) | None => None end.
+    match eval_val (snd ke) r with Some v => Some (set_attr r (fst ke) v) | None => None end.
   Definition partial (f : arec -> option arec) : worker :=
     fun r => match f r with Some r' => Some [r'] | None => None end.
   (** EvalAttributeWorker (after fix 96e4bc3): w = nil; for a, e := range map { w = first or w.ChainWorkers(...) } *)
@@ -306,23 +361,73 @@ Section Annot.
     | Some (f, t) => if negb (f =? 0) && negb (t =? 0) then Some (f, t) else None
     | None => None
     end.
+  (** AddTaxonAtRankWorker(taxo, ranks...) *)
+  Definition e_taxranks (rks : list string) (r : arec) : arec := fold_left (fun x rk => at_rank rk x) rks r.
 
-  (** CLIAnnotationWorker: fixed chain clear, set-id, delete, keep, rename, length, -S, cut *)
-  Definition impl_worker (o : aopts) : option worker :=
-    let a : option worker := None in
-    let a := if aclear o then chain a (Some (pure e_clear)) else a in
-    let a := match asetid o with Some e => chain a (Some (partial (e_setid e))) | None => a end in
-    let a := match adelete o with [] => a | ks => chain a (Some (pure (e_delete ks))) end in
-    let a := match akeep o with [] => a | ks => chain a (Some (pure (e_keep ks))) end in
-    let a := match arename o with [] => a | l => chain a (Some (pure (e_rename l))) end in
-    let a := if alength o then chain a (Some (pure e_length)) else a in
-    let a := match asettag o with [] => a | l => chain a (eval_attr_worker l) end in
-    match has_cut o with Some (f, t) => chain a (Some (partial (e_cut f t))) | None => a end.
+  (** MatchPatternWorker(pattern, name, errormax, bothStrand, allowsIndel) (after the fix: the reverse strand is tried only
+      when bothStrand) *)
+  Definition pat_slot (name : string) : string :=
+    if negb (String.eqb name "pattern") && negb (String.eqb name "") then append name "_pattern" else "pattern".
+  Definition pat_name (name : string) : string :=
+    if negb (String.eqb name "pattern") && negb (String.eqb name "") then name else "pattern".
+  Definition loc_str (st en : Z) : string := append (show_Z (st + 1)) (append ".." (show_Z en)).
+  Definition set_match (r : arec) (p : APAT) (name : string) (m loc : string) (nerr : Z) : arec :=
+    let a := set_key (pat_slot name) (VS (apat_src p)) (rattrs r) in
+    let a := set_key (append (pat_name name) "_match") (VS m) a in
+    let a := set_key (append (pat_name name) "_error") (VI nerr) a in
+    set_attrs r (set_key (append (pat_name name) "_location") (VS loc) a).
+  Definition e_pattern (p : APAT) (name : string) (e : Z) (both indel : bool) (r : arec) : arec :=
+    match best_match p e indel (rseq r) with
+    | Some (st, en, n) =>
+      set_match r p name (String.substring (Z.to_nat st) (Z.to_nat (en - st)) (rseq r)) (loc_str st en) n
+    | None =>
+      if both then
+        match best_match (apat_rc p) e indel (rseq r) with
+        | Some (st, en, n) =>
+          set_match r p name (revcomp (String.substring (Z.to_nat st) (Z.to_nat (en - st)) (rseq r)))
+                    (append "complement(" (append (loc_str st en) ")")) n
+        | None => r
+        end
+      else r
+    end.
+
+  (** CLIAnnotationWorker: `annotator = nil; if requested { annotator = annotator.ChainWorkers(w) }` for the fixed sequence
+      clear, set-id, delete, keep, rename, taxon-at-rank, path, rank, scientific name, lca, length, -S, aho-corasick, cut,
+      pattern. A step that is not requested is written as chaining the nil worker (ChainWorkers returns its receiver when
+      `next == nil`: clause `| _, None => w` of [chain]). *)
+  Definition annot_steps (o : aopts) : list (option worker) :=
+    [ (if aclear o then Some (pure e_clear) else None);
+      (match asetid o with Some e => Some (partial (e_setid e)) | None => None end);
+      (match adelete o with [] => None | ks => Some (pure (e_delete ks)) end);
+      (match akeep o with [] => None | ks => Some (pure (e_keep ks)) end);
+      (match arename o with [] => None | l => Some (pure (e_rename l)) end);
+      (match ataxrank o with [] => None | rks => Some (pure (e_taxranks rks)) end);
+      (if apath o then Some (pure set_path) else None);
+      (if atrank o then Some (pure set_trank) else None);
+      (if asciname o then Some (pure set_sciname) else None);
+      (if negb (String.eqb (alca o) "") then Some (pure (set_lca (alca o))) else None);
+      (if alength o then Some (pure e_length) else None);
+      (match asettag o with [] => None | l => eval_attr_worker l end);
+      (match aaho o with Some h => Some (pure (aho_edit h)) | None => None end);
+      (match has_cut o with Some (f, t) => Some (partial (e_cut f t)) | None => None end);
+      (match apattern o with
+       | Some p => Some (pure (e_pattern p (ptname o) (pterr o) (negb (ptfwd o)) (ptindel o)))
+       | None => None
+       end) ].
+  Definition impl_worker (o : aopts) : option worker := fold_left chain (annot_steps o) None.
   (** SeqToSliceWorker(worker, false) applied to one record (nil worker: identity) *)
   Definition impl_annot (o : aopts) (r : arec) : list arec :=
     match impl_worker o with
     | None => [r]
     | Some w => match w r with Some l => l | None => [] end
+    end.
+  (** SeqToSliceConditionalWorker(predicate, worker, false) (after fixes 9700221, 6a224c7): nil condition or nil worker =
+      SeqToSliceWorker; otherwise the worker is applied to the records that satisfy the condition, the others pass through *)
+  Definition impl_annot_sel (sel : option pred) (o : aopts) (r : arec) : list arec :=
+    match sel, impl_worker o with
+    | None, _ => impl_annot o r
+    | Some _, None => [r]
+    | Some c, Some w => if negb (c r) then [r] else match w r with Some l => l | None => [] end
     end.
 
   (** the statement: every requested edit once, in the documented order; None = record discarded with a warning *)
@@ -334,9 +439,23 @@ Section Annot.
     let r := e_delete (adelete o) r in
     let r := match akeep o with [] => r | ks => e_keep ks r end in
     let r := e_rename (arename o) r in
+    let r := e_taxranks (ataxrank o) r in
+    let r := if apath o then set_path r else r in
+    let r := if atrank o then set_trank r else r in
+    let r := if asciname o then set_sciname r else r in
+    let r := if negb (String.eqb (alca o) "") then set_lca (alca o) r else r in
     let r := if alength o then e_length r else r in
     obind (fold_left (fun x ke => obind x (e_settag ke)) (asettag o) (Some r)) (fun r =>
-    match has_cut o with Some (f, t) => e_cut f t r | None => Some r end)).
+    let r := match aaho o with Some h => aho_edit h r | None => r end in
+    obind (match has_cut o with Some (f, t) => e_cut f t r | None => Some r end) (fun r =>
+    Some (match apattern o with
+          | Some p => e_pattern p (ptname o) (pterr o) (negb (ptfwd o)) (ptindel o) r
+          | None => r
+          end)))).
+  (** with selection options: the selected records are edited, the others are written unchanged *)
+  Definition olist' (x : option arec) : list arec := match x with Some r => [r] | None => [] end.
+  Definition spec_annot_sel (sel : arec -> bool) (o : aopts) (r : arec) : list arec :=
+    if sel r then olist' (spec_annot o r) else [r].
 End Annot.
 
 (** * IBioSequence.Distribute: one goroutine appends every record to the slice of its class *)
@@ -358,11 +477,70 @@ Section Dist.
     end.
 End Dist.
 
+(** * The same loops at the level of BATCHES (batch size n): what is pushed on each output iterator *)
+Section Batches.
+  Variables A K : Type.
+  Variable keq : K -> K -> bool.
+  Variable code : A -> K.
+  Variable n : nat.                                  (* batch size *)
+  (** Distribute: state = growing slice of each class + batches already pushed on each output (in push order) *)
+  Record dstate := mkd { dslices : list (K * list A); douts : list (K * list (list A)) }.
+  Fixpoint get_slice (k : K) (sl : list (K * list A)) : list A :=
+    match sl with [] => [] | (k', l) :: t => if keq k k' then l else get_slice k t end.
+  Fixpoint put_slice (k : K) (l : list A) (sl : list (K * list A)) : list (K * list A) :=
+    match sl with
+    | [] => [(k, l)]
+    | (k', l') :: t => if keq k k' then (k', l) :: t else (k', l') :: put_slice k l t
+    end.
+  Fixpoint get_out (k : K) (o : list (K * list (list A))) : list (list A) :=
+    match o with [] => [] | (k', l) :: t => if keq k k' then l else get_out k t end.
+  Fixpoint push_out (k : K) (b : list A) (o : list (K * list (list A))) : list (K * list (list A)) :=
+    match o with
+    | [] => [(k, [b])]
+    | (k', l) :: t => if keq k k' then (k', l ++ [b]) :: t else (k', l) :: push_out k b t
+    end.
+  (** the slice of the class grows by one record; when its length reaches batchsize it is pushed and a new slice starts *)
+  Definition dist_step (st : dstate) (s : A) : dstate :=
+    let k := code s in
+    let sl := get_slice k (dslices st) ++ [s] in
+    if Nat.eqb (List.length sl) n then mkd (put_slice k [] (dslices st)) (push_out k sl (douts st))
+    else mkd (put_slice k sl (dslices st)) (douts st).
+  (** at the end every non-empty slice is pushed *)
+  Definition dist_flush (st : dstate) : list (K * list (list A)) :=
+    fold_left (fun o ks => match snd ks with [] => o | l => push_out (fst ks) l o end) (dslices st) (douts st).
+  (** the input arrives as batches (SortBatches: in order); the two nested loops run over their concatenation *)
+  Definition distribute_batches (bs : list (list A)) : list (K * list (list A)) :=
+    dist_flush (fold_left dist_step (List.concat bs) (mkd [] [])).
+
+  (** DivideOn with batch size n: (pushed true batches, pushed false batches) *)
+  Variable p : A -> bool.
+  Record vstate := mkv { vt : list A; vf : list A; vto : list (list A); vfo : list (list A) }.
+  Definition div_step (st : vstate) (s : A) : vstate :=
+    let t := if p s then vt st ++ [s] else vt st in
+    let f := if p s then vf st else vf st ++ [s] in
+    let '(t, to) := if Nat.eqb (List.length t) n then ([], vto st ++ [t]) else (t, vto st) in
+    let '(f, fo) := if Nat.eqb (List.length f) n then ([], vfo st ++ [f]) else (f, vfo st) in
+    mkv t f to fo.
+  Definition div_flush (st : vstate) : list (list A) * list (list A) :=
+    ((match vt st with [] => vto st | l => vto st ++ [l] end), (match vf st with [] => vfo st | l => vfo st ++ [l] end)).
+  Definition divide_batches (bs : list (list A)) : list (list A) * list (list A) :=
+    div_flush (fold_left div_step (List.concat bs) (mkv [] [] [] [])).
+
+  (** FilterOn: each worker filters the batches it receives in place (same order number); Rebatch(size) re-cuts the
+      sorted stream: buffer of at most n records *)
+  Definition filter_batches (bs : list (list A)) : list (list A) := map (filter p) bs.
+  Record rstate := mkrs { rbuf : list A; rout : list (list A) }.
+  Definition rebatch_step (st : rstate) (s : A) : rstate :=
+    let b := rbuf st ++ [s] in
+    if Nat.eqb (List.length b) n then mkrs [] (rout st ++ [b]) else mkrs b (rout st).
+  Definition rebatch (bs : list (list A)) : list (list A) :=
+    let st := fold_left rebatch_step (List.concat bs) (mkrs [] []) in
+    match rbuf st with [] => rout st | l => rout st ++ [l] end.
+End Batches.
+
 (** * Concrete instances used by the correspondence (literal / class matcher, tiny expression languages) *)
 Inductive atom := ALit (c : string) | ACls (cs : string) | AAny.
 Record pat := mkp { pstart : bool; patoms : list atom; pend : bool; pci : bool }.
-Definition lower (c : ascii) : ascii :=
-  let n := N_of_ascii c in if (N.leb 65 n && N.leb n 90)%bool then ascii_of_N (n + 32) else c.
 Definition ceq (ci : bool) (a b : ascii) : bool :=
   if ci then Ascii.eqb (lower a) (lower b) else Ascii.eqb a b.
 Fixpoint str_has (ci : bool) (c : ascii) (s : string) : bool :=
@@ -433,17 +611,135 @@ Definition ctax (q : tq) (r : arec) : bool :=
   | TRank rk => existsb (fun n => String.eqb (snd n) rk) (tpath 32 (rtaxid r))
   end.
 
-Definition cgopts := gopts pat pexpr unit tq.
+(** ** approximate patterns of the correspondence: IUPAC strings; <= e substitutions (window) or <= e edit operations (Sellers) *)
+Definition iupac_set (c : ascii) : string :=
+  if Ascii.eqb c "a" then "a" else if Ascii.eqb c "c" then "c" else if Ascii.eqb c "g" then "g" else if Ascii.eqb c "t" then "t"
+  else if Ascii.eqb c "r" then "ag" else if Ascii.eqb c "y" then "ct" else if Ascii.eqb c "m" then "ac" else if Ascii.eqb c "k" then "gt"
+  else if Ascii.eqb c "s" then "cg" else if Ascii.eqb c "w" then "at" else if Ascii.eqb c "b" then "cgt" else if Ascii.eqb c "d" then "agt"
+  else if Ascii.eqb c "h" then "act" else if Ascii.eqb c "v" then "acg" else if Ascii.eqb c "n" then "acgt" else "".
+Definition pm (pc tc : ascii) : bool := str_has false tc (iupac_set pc).
+Definition comp_iupac (c : ascii) : ascii :=
+  if Ascii.eqb c "a" then "t" else if Ascii.eqb c "c" then "g" else if Ascii.eqb c "g" then "c" else if Ascii.eqb c "t" then "a"
+  else if Ascii.eqb c "r" then "y" else if Ascii.eqb c "y" then "r" else if Ascii.eqb c "m" then "k" else if Ascii.eqb c "k" then "m"
+  else if Ascii.eqb c "b" then "v" else if Ascii.eqb c "v" then "b" else if Ascii.eqb c "d" then "h" else if Ascii.eqb c "h" then "d" else c.
+Fixpoint rc_acc (s acc : string) : string :=
+  match s with EmptyString => acc | String c t => rc_acc t (String (comp_iupac c) acc) end.
+Definition pat_rc (p : string) : string := rc_acc p "".
+(** mismatches of p against the prefix of t; None when t is shorter than p *)
+Fixpoint ham (p t : string) : option Z :=
+  match p with
+  | EmptyString => Some 0
+  | String pc p' => match t with
+                    | EmptyString => None
+                    | String tc t' => match ham p' t' with Some d => Some (d + (if pm pc tc then 0 else 1)) | None => None end
+                    end
+  end.
+(** all windows: (start, errors) with errors <= e, by increasing start *)
+Fixpoint ham_hits (p : string) (e : Z) (i : Z) (t : string) : list (Z * Z) :=
+  let here := match ham p t with Some d => if d <=? e then [(i, d)] else [] | None => [] end in
+  match t with EmptyString => here | String _ t' => here ++ ham_hits p e (i + 1) t' end.
+Fixpoint list_of_string (s : string) : list ascii := match s with EmptyString => [] | String c t => c :: list_of_string t end.
+Fixpoint sel_step (p : list ascii) (c : ascii) (diag : Z) (col : list Z) (newprev : Z) : list Z :=
+  match p, col with
+  | pc :: p', ci :: rest =>
+    let v := Z.min (Z.min (diag + (if pm pc c then 0 else 1)) (ci + 1)) (newprev + 1) in v :: sel_step p' c ci rest v
+  | _, _ => []
+  end.
+Fixpoint iota (i : Z) (k : nat) : list Z := match k with O => [] | S k' => i :: iota (i + 1) k' end.
+Fixpoint sellers_loop (p : list ascii) (e : Z) (col : list Z) (t : string) : bool :=
+  (last col 0 <=? e) ||
+  match t with EmptyString => false | String c t' => sellers_loop p e (sel_step p c 0 col 0) t' end.
+Definition sellers (p : string) (e : Z) (t : string) : bool :=
+  let pl := list_of_string p in sellers_loop pl e (iota 1 (List.length pl)) t.
+Definition c_approx (p : string) (e : Z) (indel : bool) (t : string) : bool :=
+  if indel then sellers p e t else match ham_hits p e 0 t with [] => false | _ => true end.
+(** BestMatch, substitutions only: the leftmost window with the fewest mismatches (indels: not modelled, never evaluated) *)
+Fixpoint best_of (l : list (Z * Z)) (b : option (Z * Z)) : option (Z * Z) :=
+  match l with
+  | [] => b
+  | (i, d) :: t => best_of t (match b with Some (_, bd) => if d <? bd then Some (i, d) else b | None => Some (i, d) end)
+  end.
+Definition c_best (p : string) (e : Z) (indel : bool) (t : string) : option (Z * Z * Z) :=
+  match best_of (ham_hits p e 0 t) None with
+  | Some (i, d) => Some (i, i + Z.of_nat (String.length p), d)
+  | None => None
+  end.
+
+Definition cgopts := gopts pat pexpr string tq.
+Definition mkg2 (minl maxl minc maxc : Z) (sp dp ip : list pat) (pr : list pexpr) (ra : list string)
+           (ap : list (string * pat)) (il : option (list string)) (inv : bool) (m : pmode)
+           (rks bel avo : list tq) (apx : list string) (e : Z) (indel fwd : bool) : cgopts :=
+  MkG pat pexpr string tq minl maxl minc maxc sp dp ip pr ra ap il inv m apx e indel fwd rks bel avo.
 Definition mkg (minl maxl minc maxc : Z) (sp dp ip : list pat) (pr : list pexpr) (ra : list string)
            (ap : list (string * pat)) (il : option (list string)) (inv : bool) (m : pmode)
            (rks bel avo : list tq) : cgopts :=
-  MkG pat pexpr unit tq minl maxl minc maxc sp dp ip pr ra ap il inv m [] rks bel avo.
-Definition c_impl_paired (o : cgopts) := impl_paired pat pexpr unit tq pat_match pexpr_eval (fun _ _ => true) ctax o.
-Definition c_impl_pred (o : cgopts) := impl_pred pat pexpr unit tq pat_match pexpr_eval (fun _ _ => true) ctax o.
-Definition c_spec_sel (o : cgopts) := spec_sel pat pexpr unit tq pat_match pexpr_eval (fun _ _ => true) ctax o.
-Definition caopts := aopts vexpr.
-Definition mka := MkA vexpr.
-Definition c_impl_annot (o : caopts) := impl_annot vexpr vexpr_eval o.
+  mkg2 minl maxl minc maxc sp dp ip pr ra ap il inv m rks bel avo [] 0 false false.
+Definition c_impl_paired (o : cgopts) := impl_paired pat pexpr string tq pat_match pexpr_eval c_approx pat_rc ctax o.
+Definition c_impl_pred (o : cgopts) := impl_pred pat pexpr string tq pat_match pexpr_eval c_approx pat_rc ctax o.
+Definition c_spec_sel (o : cgopts) := spec_sel pat pexpr string tq pat_match pexpr_eval c_approx pat_rc ctax o.
+
+(** ** taxonomy edits on the small taxonomy (names are "taxon<taxid>") *)
+Definition taxname (t : Z) : string := append "taxon" (show_Z t).
+Definition c_at_rank (rk : string) (r : arec) : arec :=
+  match tpath 32 (rtaxid r) with
+  | [] => r                                                (* unknown taxid: nothing happens *)
+  | path => match filter (fun n => String.eqb (snd n) rk) path with
+            | (t, _) :: _ => set_attrs r (set_key (append rk "_name") (VS (taxname t)) (set_key (append rk "_taxid") (VI t) (rattrs r)))
+            | [] => set_attrs r (set_key (append rk "_name") (VS "NA") (set_key (append rk "_taxid") (VI (-1)) (rattrs r)))
+            end
+  end.
+Fixpoint join_bar (l : list string) : string :=
+  match l with [] => "" | [x] => x | x :: t => append x (append "|" (join_bar t)) end.
+Definition c_set_path (r : arec) : arec :=
+  set_attrs r (set_key "taxonomic_path"
+    (VS (join_bar (map (fun n => append (show_Z (fst n)) (append "@" (append (taxname (fst n)) (append "@" (snd n))))) (rev (tpath 32 (rtaxid r))))))
+    (rattrs r)).
+Definition c_set_trank (r : arec) : arec :=
+  set_attrs r (set_key "taxonomic_rank" (VS (match tpath 32 (rtaxid r) with n :: _ => snd n | [] => "" end)) (rattrs r)).
+Definition c_set_sciname (r : arec) : arec := set_attrs r (set_key "scienctific_name" (VS (taxname (rtaxid r))) (rattrs r)).
+(** decimal keys of merged_taxid *)
+Fixpoint parse_nat (s : string) (acc : Z) : Z :=
+  match s with EmptyString => acc | String c t => parse_nat t (acc * 10 + (Z.of_N (N_of_ascii c) - 48)) end.
+Definition lca2 (a b : Z) : Z :=
+  let pb := map fst (tpath 32 b) in
+  match filter (fun x => existsb (Z.eqb x) pb) (map fst (tpath 32 a)) with x :: _ => x | [] => 1 end.
+Definition lca_list (l : list Z) : Z := match l with [] => 1 | x :: t => fold_left lca2 t x end.
+Fixpoint replace_first (pat rep s : string) : string :=
+  if String.prefix pat s then append rep (String.substring (String.length pat) (String.length s - String.length pat) s)
+  else match s with EmptyString => EmptyString | String c t => String c (replace_first pat rep t) end.
+Definition ends_with (suf s : string) : bool :=
+  String.eqb (String.substring (String.length s - String.length suf) (String.length suf) s) suf && Nat.leb (String.length suf) (String.length s).
+(** AddLCAWorker at threshold 1.0: slot naming, the merged_taxid summary created when absent, LCA of its keys, error 0 *)
+Definition c_set_lca (slot : string) (r : arec) : arec :=
+  let slot := if ends_with "taxid" slot then slot else append slot "_taxid" in
+  let serr := let x := replace_first "taxid" "error" slot in if String.eqb x "error" then "lca_error" else x in
+  let sname := let x := replace_first "taxid" "name" slot in if String.eqb x "name" then "scientific_name" else x in
+  let '(m, a) := match lookup "merged_taxid" (rattrs r) with
+                 | Some (VM m) => (m, rattrs r)
+                 | _ => let m := [(show_Z (rtaxid r), rcount r)] in (m, set_key "merged_taxid" (VM m) (rattrs r))
+                 end in
+  let l := lca_list (map (fun kv => parse_nat (fst kv) 0) m) in
+  set_attrs r (set_key serr (VI 0) (set_key sname (VS (taxname l)) (set_key slot (VI l) a))).
+(** --aho-corasick FILE: CLIAhoCorazick lowers the patterns and drops the empty lines; every (overlapping) occurrence counts *)
+Fixpoint count_occ (p t : string) : Z :=
+  (if String.prefix p t then 1 else 0) + match t with EmptyString => 0 | String _ t' => count_occ p t' end.
+Definition aho_total (pats : list string) (t : string) : Z := fold_left (fun a p => a + count_occ p t) pats 0.
+Definition c_aho_edit (lines : list string) (r : arec) : arec :=
+  let pats := map lower_str (filter (fun l => negb (String.eqb l "")) lines) in
+  let nf := aho_total pats (rseq r) in let nr := aho_total pats (revcomp (rseq r)) in
+  if 0 <? nf + nr then
+    set_attrs r (set_key "aho_corasick_Rev" (VI nr) (set_key "aho_corasick_Fwd" (VI nf) (set_key "aho_corasick" (VI (nf + nr)) (rattrs r))))
+  else r.
+
+Definition caopts := aopts vexpr (list string) string.
+Definition mka2 := MkA vexpr (list string) string.
+Definition mka (cl : bool) (sid : option vexpr) (del keep : list string) (ren : list (string * string)) (len : bool)
+               (st : list (string * vexpr)) (cut : option (Z * Z)) : caopts :=
+  mka2 cl sid del keep ren len st cut [] false false false "" None None "pattern" 0 false false.
+Definition c_impl_annot (o : caopts) :=
+  impl_annot vexpr vexpr_eval c_at_rank c_set_path c_set_trank c_set_sciname c_set_lca (list string) c_aho_edit string (fun p => p) pat_rc c_best o.
+Definition c_impl_annot_sel (sel : option pred) (o : caopts) :=
+  impl_annot_sel vexpr vexpr_eval c_at_rank c_set_path c_set_trank c_set_sciname c_set_lca (list string) c_aho_edit string (fun p => p) pat_rc c_best sel o.
 
 (** obidistribute classifiers (class.go): DualAnnotationClassifier, RotateClassifier (rank based), HashClassifier (not modelled: CRC32) *)
 Inductive dopts := DClass (key dir na : string) | DRotate (n : Z) | DHash (n : Z).
@@ -464,8 +760,18 @@ Fixpoint number {A} (i : Z) (l : list A) : list (Z * A) :=
   match l with [] => [] | x :: t => (i, x) :: number (i + 1) t end.
 
 (** * Correspondence cases *)
+Fixpoint list_eqb0 {A} (eq : A -> A -> bool) (a b : list A) : bool :=
+  match a, b with
+  | [], [] => true
+  | x :: a', y :: b' => eq x y && list_eqb0 eq a' b'
+  | _, _ => false
+  end.
 Definition aval_eqb (a b : aval) : bool :=
-  match a, b with VS x, VS y => String.eqb x y | VI x, VI y => x =? y | _, _ => false end.
+  match a, b with
+  | VS x, VS y => String.eqb x y | VI x, VI y => x =? y
+  | VM x, VM y => list_eqb0 (fun p q => String.eqb (fst p) (fst q) && (snd p =? snd q)) x y
+  | _, _ => false
+  end.
 Definition attrs_eqb (a b : list (string * aval)) : bool :=
   Nat.eqb (List.length a) (List.length b) &&
   forallb (fun kv => match lookup (fst kv) b with Some v => aval_eqb (snd kv) v | None => false end) a.
@@ -485,8 +791,8 @@ Definition opt_mates (m : option (list arec)) (n : nat) : list (option arec) :=
 
 Inductive ccase :=
 | CGrep (o : cgopts) (ds : list arec) (mates : option (list arec)) (kept : list bool)
-| CAnnot (o : caopts) (ds : list arec) (out : list arec)
-| CDist (d : dopts) (ds : list arec) (dest : list (string * string)).
+| CAnnot (o : caopts) (sel : option cgopts) (ds : list arec) (out : list arec)
+| CDist (d : dopts) (n : Z) (ds : list arec) (dest : list (string * string)) (files : list ((string * string) * list string)).
 
 Definition case_ok (c : ccase) : bool :=
   match c with
@@ -496,9 +802,17 @@ Definition case_ok (c : ccase) : bool :=
              | None => match c_impl_pred o with None => None | Some f => Some (fun r _ => f r) end
              end in
     list_eqb Bool.eqb (map (fun rm => holds2 p (fst rm) (snd rm)) (combine ds (opt_mates mates (List.length ds)))) kept
-  | CAnnot o ds out => list_eqb arec_eqb (flat_map (c_impl_annot o) ds) out
-  | CDist d ds dest =>
+  | CAnnot o sel ds out =>
+    (* obiannotate: predicate := CLISequenceSelectionPredicate() (nil when no selection option is effective) *)
+    let p := match sel with Some g => c_impl_pred g | None => None end in
+    list_eqb arec_eqb (flat_map (c_impl_annot_sel p o) ds) out
+  | CDist d n ds dest files =>
     let items := number 0 ds in
+    (* batch level (--batch-size n, the input cut in two batches): every file holds, in this order, what Distribute pushed on its output *)
+    let h := Nat.div (List.length items) 2 in
+    let outs := distribute_batches (Z * arec) (string * string) pair_eqb (dist_code d) (Z.to_nat n) [firstn h items; skipn h items] in
+    forallb (fun kf => list_eqb String.eqb (map (fun x : Z * arec => rid (snd x)) (List.concat (get_out _ _ pair_eqb (fst kf) outs))) (snd kf)) files &&
+    Nat.eqb (List.length outs) (List.length files) &&
     let sl := distribute (Z * arec) (string * string) pair_eqb (dist_code d) items in
     (* every record is found in the slice of the destination observed for it, and nowhere else *)
     list_eqb pair_eqb (map (dist_code d) items) dest &&
